@@ -15,8 +15,8 @@
 package simrt
 
 import (
-	"os"
 	"fmt"
+	"os"
 	"runtime"
 	"sort"
 	"strconv"
@@ -543,6 +543,10 @@ func (s *Sched) Snapshot() (parked, native []string) {
 	return
 }
 
+// SystemTaskName is the role label of tasks the system under test spawns through its goroutine-pool hook;
+// like unnamed tasks (instrumented go statements) they are not harness tasks.
+const SystemTaskName = "erpc-go"
+
 // Go starts fn as a new task (plain goroutine outside a run).
 //
 //go:norace
@@ -586,7 +590,7 @@ func (s *Sched) spawn(t *Task, fn func()) {
 			t.exiting = true
 			return
 		}
-		if t.Name != "" {
+		if t.Name != "" && t.Name != SystemTaskName {
 			// a named task is a harness task: what it did is visible to a harness task that waits for its
 			// end (WaitCond, WaitQuiescent), as with a WaitGroup in a real program.  Tasks started by the
 			// system under test (instrumented go statements, unnamed) publish nothing.
